@@ -62,7 +62,7 @@ ASSUMPTIONS = [
     'step >= 1 or None (the domain C15 states for the selectors)',
     'finite values; floating point words beyond 2^100 (FDOUBL 2^996), sub-normal, infinite or NaN are replaced in the generated frame data',
     'channel names, frame identifiers and BIT channel names are free of interior spaces, dots and colons; frame identifiers are file name safe; '
-    'channel long names are free of colons (the domain C10 states for the LAS writer)',
+    'channel long names are free of colons and channel units free of spaces (the domain C10 states for the LAS writer)',
     'channel subsets name channels exactly as the source spells them (BIT names keep their trailing spaces)',
     'LIS dipmeter channels (codes 130 / 234) are not generated (their sub-channel layout belongs to C06)',
     'tolerance of a value: half a unit of the last printed digit + the floating point allowance of the reduction (C10); X axis of BIT: '
@@ -72,6 +72,10 @@ ASSUMPTIONS = [
     'known defects of other properties are matched by their own signatures: C13-genfloats-ffffff (BIT values), C04/C07 VSINGL scale, '
     'C06-implied-x-late-entry (LIS implied X of stepped selections)',
     'the step of a single row is undefined and not checked',
+    'Sample: the printed rows need not identify their source frames (repeated values, X below the print resolution): rows are mapped greedily to '
+    'increasing source frames and the well section holds when it describes any source frame the last row is consistent with',
+    'LASRead is applied when the rows are well formed and the printed X values are pairwise distinct (LASRead refuses a repeated index: C10 states an '
+    'index spacing above the print resolution)',
     'LIS: field width >= 7 (the converter pads the heading comment of an implied X column to width - 6 characters and Python refuses a padding below 1)',
 ]
 SHARDS = {'quick': 4, 'thorough': 16}
@@ -99,6 +103,7 @@ SIG_LIS_CHANNELS = 'failed:lis-channel-names-passed-where-channel-indexes-expect
 SIG_SAME_IDENT = 'rp66v1-frame-arrays-with-same-identifier-share-one-file'
 SIG_X_LEAK = 'columns:x-axis-name-of-earlier-pass-added-to-request'
 
+KNOWN_FORMS = (SIG_STRP, SIG_SLICE_LAST, SIG_SAMPLE_LAST, SIG_LIS_WHOLE, SIG_IMPLIED_X)
 REDUCTIONS = c10.REDUCTIONS
 EPS = Fraction(1, 2 ** 52)
 
@@ -127,8 +132,8 @@ def rp66_passes(src):
             cols, alts = [], []
             for k, c in enumerate(f['channels']):
                 m, w = c04.reference_matrix(np, c['code'], c['dims'], [r['channels'][k] for r in f['rows']])
-                cols.append([[_py(v) for v in m[i].reshape(-1).tolist()] for i in range(n)])
-                alts.append(None if w is None else [[_py(v) for v in w[i].reshape(-1).tolist()] for i in range(n)])
+                cols.append([m[i].reshape(-1).tolist() for i in range(n)])
+                alts.append(None if w is None else [w[i].reshape(-1).tolist() for i in range(n)])
             passes.append({
                 'suffix': '_%d_%s.las' % (lf, f['name'][2].decode('ascii')), 'n': n,
                 'names': [c['name'][2].decode('ascii') for c in f['channels']],
@@ -140,10 +145,6 @@ def rp66_passes(src):
                 'shared_ident': idents.count(f['name'][2]) > 1,
             })
     return data, passes, {'extra': extra, 'model': model}
-
-
-def _py(v):
-    return v
 
 
 LIS_OPTICAL = {b'.1IN': Fraction(1, 120), b'INCH': Fraction(1, 12), b'IN  ': Fraction(1, 12), b'INS ': Fraction(1, 12),
@@ -808,9 +809,10 @@ def check_well(cc, dev, where, fmt, sel, p, s, exp_rows, tok_rows, last_candidat
         got = []
         rows = list(exp_rows[:-1]) + [f1]
         well_devs(lambda o, sg, d: got.append(sg), where, fmt, sel, p, s, rows, tok_rows)
-        if best_n is None or len(got) < best_n:
-            best, best_n = rows, len(got)
-    if best_n:
+        rank = (sum(1 for g in got if g not in KNOWN_FORMS), len(got))     # forms of recorded defects do not speak against a candidate
+        if best_n is None or rank < best_n:
+            best, best_n = rows, rank
+    if best_n[1]:
         well_devs(dev, where, fmt, sel, p, s, best, tok_rows)
 
 
@@ -923,7 +925,7 @@ def check_readback(dev, where, nm, text, want_names, tok_rows, rows_ok):
 def parts(tier):
     mf = 24 if tier == 'quick' else 60
     return [
-        HypPart('rp66v1', cases('RP66V1', mf), check, 800, 48000),
-        HypPart('lis', cases('LIS', mf), check, 800, 48000),
-        HypPart('bit', cases('BIT', mf), check, 800, 48000),
+        HypPart('rp66v1', cases('RP66V1', mf), check, 800, 36000),
+        HypPart('lis', cases('LIS', mf), check, 800, 36000),
+        HypPart('bit', cases('BIT', mf), check, 800, 36000),
     ]
